@@ -1134,6 +1134,11 @@ def c11(chk, tier):
                         # located in the macro they come from
                         sites += [(ms + (-cut if ms > ls else 0), me + (-cut if ms > ls else 0)) for (ms, me) in macro_spans]
                     cands.append(("missing_param", kw, d[:cut_from] + d[cut_to:], sites, ls))
+                    if (fx.lex[k - 1][0] if k else -1) == TEXT:
+                        # ... right after the text of a bare Description, with a comment glued to the keyword
+                        glue = b"# gone"
+                        cands.append(("missing_param_glued_comment", kw, d[:cut_from] + glue + d[cut_to:],
+                                      [(st, en + len(glue) if st <= ls else en + len(glue)) for (st, en) in sites], ls))
             # 2. a singleton child written twice
             if kw in SINGLETON_CHILD and bynode[b][1] is not None and not bynode[b][0]["x"]:
                 nd = bynode[b][0]
@@ -1188,7 +1193,7 @@ def c11(chk, tier):
                     fault, kw, fx.name, e["msg"], e["index"], e["line"], sites)
                 what = "located elsewhere"
         if bad:
-            sig = {"fault": fault, "via": "fixture", "what": what, "block": kw.lower(), "detail": "", "outcome": o["outcome"],
+            sig = {"fault": fault.split("_glued")[0], "via": "fixture", "what": what, "block": kw.lower(), "detail": "glued-comment" if "_glued" in fault else "", "outcome": o["outcome"],
                    "msg": (o.get("err") or {}).get("msg", ""), "frames": ",".join(o.get("frames") or []), "fixture": fx.name}
             chk.violation("%s | document:\n%s" % (bad, data.decode("latin1")[:1500]),
                           {"kind": "fxfault", "fixture": fx.name, "root": fx.root, "fault": fault, "kw": kw, "sites": sites,
